@@ -10,6 +10,7 @@ package main
 import (
 	"fmt"
 	"math/big"
+	"time"
 
 	"go.dedis.ch/kyber/v4"
 	"go.dedis.ch/kyber/v4/compatible/compatiblemod"
@@ -31,6 +32,23 @@ var (
 	lightGroup  = map[string]bool{} // sampled more thinly (parameter sweep, not the default instance)
 	noScalar    = map[string]bool{} // scalar ring of composite order (full group): not part of this check
 )
+
+// tryFor runs f under recover with a deadline; a call that neither returns nor panics
+// in time is abandoned (its goroutine keeps spinning) so that the harness itself always
+// terminates, also on a tree where some rejection-sampling loop no longer ends.
+func tryFor(d time.Duration, f func()) (panicked bool, msg string, timedOut bool) {
+	done := make(chan struct{})
+	go func() {
+		defer close(done)
+		panicked, msg = vh.Try(f)
+	}()
+	select {
+	case <-done:
+		return panicked, msg, false
+	case <-time.After(d):
+		return false, "", true
+	}
+}
 
 func randPrime(r *vh.Rng, bits int) *big.Int {
 	for {
@@ -104,7 +122,11 @@ func extraGroups(r *vh.Rng, thorough bool, rep *vh.Report) []grpprog.Inst {
 	}
 	for _, bl := range qrBits {
 		g := new(p256.ResidueGroup)
-		pan, msg := vh.Try(func() { g.QuadraticResidueGroup(bl, vh.NewSeqStream(r.Bytes(16))) })
+		pan, msg, late := tryFor(20*time.Second, func() { g.QuadraticResidueGroup(bl, vh.NewSeqStream(r.Bytes(16))) })
+		if late {
+			rep.Note(fmt.Sprintf("QuadraticResidueGroup(%d) did not terminate within 20 s", bl))
+			continue
+		}
 		if pan || !g.Valid() {
 			rep.Note(fmt.Sprintf("QuadraticResidueGroup(%d) failed: %s", bl, msg))
 			continue
@@ -155,13 +177,17 @@ func extraGroups(r *vh.Rng, thorough bool, rep *vh.Report) []grpprog.Inst {
 		pr := pars[c.pi]
 		name := "vartime." + map[bool]string{false: "proj", true: "ext"}[c.ext] + "-" + pr.name + map[bool]string{false: "", true: "-full"}[c.full]
 		var inst grpprog.Inst
-		pan, msg := vh.Try(func() {
+		pan, msg, late := tryFor(30*time.Second, func() {
 			if c.ext {
 				inst = grpprog.Inst{Name: name, G: new(edwards25519vartime.ExtendedCurve).InitCurve(pr.f(), c.full)}
 			} else {
 				inst = grpprog.Inst{Name: name, G: new(edwards25519vartime.ProjectiveCurve).Init(pr.f(), c.full)}
 			}
 		})
+		if late {
+			rep.Note("curve initialisation did not terminate within 30 s for " + name)
+			continue
+		}
 		if pan {
 			rep.Note("curve initialisation panicked for " + name + ": " + msg)
 			continue
